@@ -72,6 +72,8 @@ def respell_options(ch):
     out.append(f"&#x{ord(ch):x};")
     out.append(f"%{ord(ch):02X}")
     out.append("\\" + ch)
+    out.append(f"&amp;#{ord(ch)};")  # a reference to a reference (one decoding must not be undone later)
+    out.append(f"&#38;#x{ord(ch):x};")
     if ch == ":":
         out.append("&colon;")
     if ch == "/":
@@ -151,7 +153,10 @@ def urls_of(tokens):
 
 
 def unesc(s):
-    return s.replace("&quot;", '"').replace("&lt;", "<").replace("&gt;", ">").replace("&amp;", "&")
+    """the attribute value as a browser reads it: every character reference decoded"""
+    import html as _html
+
+    return _html.unescape(s)
 
 
 def judge(u):
@@ -194,8 +199,12 @@ def _one(md, c, src, acc):
         return None
     if not html_on:
         for m in HREF.finditer(out):
+            # the value as written must be URL-safe (with & escaped), and harmless once the browser has decoded it
+            raw = m.group(1).replace("&amp;", "&")
+            if not SAFE.match(raw):
+                return "URL is not percent-encoded URL-safe ASCII in HTML"
             r = judge(unesc(m.group(1)))
-            if r:
+            if r and "URL-safe" not in r:
                 return r + " in HTML"
     if not emitted:
         ref = acc.call(producers_off(c).render, src)
@@ -249,6 +258,11 @@ def _iter(sh):
         # still be normalised)
         for tail in TAILS:
             yield p + w + tail
+        if w in GOODWORDS and pi == 0:
+            # long payloads (fast paths keyed on length) with an unsafe character at the end
+            for n in (64, 4096, 20000):
+                for tail in TAILS[:4]:
+                    yield w + "base64," + "A" * n + tail
     elif sh[0] == "parts":
         _, si, ui, _ncfg = sh
         sc, us = U_SCHEME[si], U_USER[ui]
@@ -272,6 +286,8 @@ def run_shard(sh, acc):
         if r:
             acc.violation(sh[0], _cls(r), {"cfg": CFGS[0], "src": u, "direct": True}, r)
         for p in PRODUCERS:
+            if p == "{U}" and len(u) > 1000:
+                continue  # (the stub linkifier's own regex is quadratic on long scheme-less runs)
             src = p.replace("{U}", u)
             for c, md in mds:
                 acc.case()
